@@ -2,6 +2,7 @@
     preserved by every operation; publish delivers to exactly the connections that have a
     matching subscription, once per connection; acknowledgement counts; nothing is delivered
     after unsubscribing. *)
+From Coq Require Import Sorting.Permutation.
 From Ferrous Require Import Base.Bytes Model.Types Model.PubSub Proofs.BytesFacts Proofs.PsGlobFacts.
 Open Scope Z_scope.
 
@@ -47,7 +48,7 @@ Proof.
 Qed.
 Lemma zmem_false x l : zmem x l = false <-> ~ In x l.
 Proof. rewrite <- zmem_In. destruct (zmem x l); split; congruence. Qed.
-Lemma In_zremove x y l : In x (zremove y l) <-> In x l /\ x <> y.
+Lemma In_zremove x y l : In x (zdrop y l) <-> In x l /\ x <> y.
 Proof.
   induction l as [|z l IH]; simpl; [tauto|].
   destruct (Z.eqb_spec y z) as [->|N].
@@ -56,7 +57,7 @@ Proof.
     + intros [H|[H N']]; [subst; split; [auto | congruence] | tauto].
     + tauto.
 Qed.
-Lemma NoDup_zremove y l : NoDup l -> NoDup (zremove y l).
+Lemma NoDup_zremove y l : NoDup l -> NoDup (zdrop y l).
 Proof.
   induction 1 as [|z l Hn Hd IH]; simpl; [constructor|].
   destruct (y =? z); [exact IH|]. constructor; [|exact IH].
@@ -212,10 +213,10 @@ Proof.
   - apply gwf_aset; [exact W | discriminate | constructor; [simpl; tauto | constructor]].
 Qed.
 
-Lemma g_subs_del_eq n c g : g_subs n (g_del n c g) = zremove c (g_subs n g).
+Lemma g_subs_del_eq n c g : g_subs n (g_del n c g) = zdrop c (g_subs n g).
 Proof.
   unfold g_del, g_subs. destruct (alookup n g) as [subs|] eqn:E.
-  - destruct (zremove c subs) as [|x r] eqn:Z.
+  - destruct (zdrop c subs) as [|x r] eqn:Z.
     + rewrite alookup_aremove_eq. reflexivity.
     + rewrite alookup_aset_eq. reflexivity.
   - rewrite E. reflexivity.
@@ -223,7 +224,7 @@ Qed.
 Lemma g_subs_del_neq n n' c g : n' <> n -> g_subs n' (g_del n c g) = g_subs n' g.
 Proof.
   intros N. unfold g_del, g_subs. destruct (alookup n g) as [subs|] eqn:E; [|reflexivity].
-  destruct (zremove c subs); [rewrite alookup_aremove_neq by exact N | rewrite alookup_aset_neq by exact N]; reflexivity.
+  destruct (zdrop c subs); [rewrite alookup_aremove_neq by exact N | rewrite alookup_aset_neq by exact N]; reflexivity.
 Qed.
 Lemma In_g_del n c g n' c' :
   In c' (g_subs n' (g_del n c g)) <-> In c' (g_subs n' g) /\ ~ (n' = n /\ c' = c).
@@ -236,7 +237,7 @@ Lemma gwf_del n c g : GWf g -> GWf (g_del n c g).
 Proof.
   intros W. unfold g_del. destruct (alookup n g) as [subs|] eqn:E; [|exact W].
   destruct (gwf_lookup _ _ _ W E) as [_ Hd].
-  destruct (zremove c subs) as [|x r] eqn:Z; [apply gwf_aremove; exact W|].
+  destruct (zdrop c subs) as [|x r] eqn:Z; [apply gwf_aremove; exact W|].
   apply gwf_aset; [exact W | discriminate | rewrite <- Z; apply NoDup_zremove; exact Hd].
 Qed.
 
@@ -244,7 +245,7 @@ Lemma purge_keys c g : NoDup (map fst g) -> NoDup (map fst (g_purge c g)).
 Proof.
   unfold g_purge. induction g as [|[n l] g IH]; simpl; intros H; [constructor|].
   inversion H as [|? ? Hn Hd]; subst.
-  destruct (zremove c l); simpl; [apply IH; exact Hd|].
+  destruct (zdrop c l); simpl; [apply IH; exact Hd|].
   constructor; [|apply IH; exact Hd].
   intros Hin. apply Hn. apply in_map_iff in Hin. destruct Hin as [e [E1 E2]].
   apply filter_In in E2. destruct E2 as [E2 _]. apply in_map_iff in E2. destruct E2 as [e0 [E3 E4]].
@@ -256,22 +257,22 @@ Proof.
   unfold g_purge. rewrite Forall_forall in *. intros e He.
   apply filter_In in He. destruct He as [He Hne]. apply in_map_iff in He. destruct He as [e0 [<- He0]].
   simpl in *. split.
-  - destruct (zremove c (snd e0)); [discriminate | discriminate].
+  - destruct (zdrop c (snd e0)); [discriminate | discriminate].
   - apply NoDup_zremove. apply (F _ He0).
 Qed.
-Lemma g_subs_purge c g n : NoDup (map fst g) -> g_subs n (g_purge c g) = zremove c (g_subs n g).
+Lemma g_subs_purge c g n : NoDup (map fst g) -> g_subs n (g_purge c g) = zdrop c (g_subs n g).
 Proof.
   unfold g_purge, g_subs. induction g as [|[n2 l] g IH]; simpl; intros H; [reflexivity|].
   inversion H as [|? ? Hn Hd]; subst.
   destruct (beq n n2) eqn:E.
   - apply beq_eq in E. subst n2.
-    destruct (zremove c l) as [|x r] eqn:Z; simpl.
+    destruct (zdrop c l) as [|x r] eqn:Z; simpl.
     + (* the entry disappears; no other binding of n *)
       rewrite IH by exact Hd.
       destruct (alookup n g) as [l2|] eqn:E2; [|reflexivity].
       exfalso. apply Hn. apply alookup_some_In in E2. apply in_map_iff. exists (n, l2). auto.
     + rewrite beq_refl. reflexivity.
-  - destruct (zremove c l) as [|x r] eqn:Z; simpl; [apply IH; exact Hd|].
+  - destruct (zdrop c l) as [|x r] eqn:Z; simpl; [apply IH; exact Hd|].
     rewrite E. apply IH. exact Hd.
 Qed.
 
@@ -503,7 +504,7 @@ Proof.
     + rewrite cinfo_cremove_neq by exact N. apply Hd.
 Qed.
 
-Lemma step_inv choice s o : Inv s -> Inv (snd (ps_step choice s o)).
+Lemma step_inv s o : Inv s -> Inv (snd (ps_step s o)).
 Proof.
   intros H. destruct o; simpl.
   - pose proof (subscribe_inv s c names H). destruct (subscribe s c names). exact H0.
@@ -537,7 +538,7 @@ Proof.
       [rewrite clookup_cremove_neq by exact N | rewrite clookup_cset_neq by exact N]; auto.
 Qed.
 
-Lemma step_noempty choice s o : nonempty_subs o -> NoEmptyEntry s -> NoEmptyEntry (snd (ps_step choice s o)).
+Lemma step_noempty s o : nonempty_subs o -> NoEmptyEntry s -> NoEmptyEntry (snd (ps_step s o)).
 Proof.
   intros NE H. destruct o; simpl.
   - unfold subscribe. destruct (sub_loop c names (si_ch (conn_info s c)) (len (si_pat (conn_info s c))) (ps_ch s)) as [[rs mine] g] eqn:E.
@@ -581,61 +582,6 @@ Proof.
   - rewrite in_app_iff. intros [X|X]; [contradiction|]. apply (Hx a); simpl; auto.
   - apply IH; [exact H2|]. intros x X Y. apply (Hx x); simpl; auto.
 Qed.
-Lemma add_receivers_spec tag : forall subs seen seen' l,
-  add_receivers subs tag seen = (seen', l) ->
-  (forall x, In x seen' <-> In x seen \/ In x subs) /\
-  (forall x, In x (map fst l) <-> In x subs /\ ~ In x seen) /\
-  NoDup (map fst l) /\ (forall r, In r l -> snd r = tag).
-Proof.
-  induction subs as [|c r IH]; intros seen seen' l H; simpl in H.
-  - injection H as <- <-. simpl. repeat split; try tauto. constructor.
-  - destruct (zmem c seen) eqn:M.
-    + apply zmem_In in M. destruct (IH _ _ _ H) as [A [B [C D]]]. split; [|split; [|split]]; auto.
-      * intros x. rewrite A. simpl. split; [tauto|]. intros [X|[X|X]]; subst; tauto.
-      * intros x. rewrite B. simpl. split; [tauto|]. intros [[X|X] Y]; subst; tauto.
-    + apply zmem_false in M.
-      destruct (add_receivers r tag (c :: seen)) as [s2 l2] eqn:E. injection H as <- <-.
-      destruct (IH _ _ _ E) as [A [B [C D]]]. split; [|split; [|split]].
-      * intros x. rewrite A. simpl. tauto.
-      * intros x. simpl. rewrite B. simpl. split.
-        -- intros [X|[X Y]]; [subst; tauto | tauto].
-        -- intros [[X|X] Y]; [auto|]. destruct (Z_dec c x); [auto | right; tauto].
-      * simpl. constructor; [|exact C]. rewrite B. simpl. tauto.
-      * intros r0 [X|X]; [subst; reflexivity | apply D; exact X].
-Qed.
-
-Lemma pat_receivers_spec ch : forall pats seen l,
-  pat_receivers ch pats seen = l ->
-  NoDup (map fst l) /\ (forall x, In x (map fst l) -> ~ In x seen) /\
-  (forall c t, In (c, t) l -> exists p subs, t = Some p /\ In (p, subs) pats /\ ps_match p ch = true /\ In c subs) /\
-  (forall p subs c, In (p, subs) pats -> ps_match p ch = true -> In c subs -> ~ In c seen -> In c (map fst l)).
-Proof.
-  induction pats as [|[p subs] r IH]; intros seen l H; simpl in H.
-  - subst l. simpl. repeat split; try tauto. constructor.
-  - destruct (ps_match p ch) eqn:M.
-    + destruct (add_receivers subs (Some p) seen) as [seen' l1] eqn:E. subst l.
-      destruct (add_receivers_spec _ _ _ _ _ E) as [A [B [C D]]].
-      destruct (IH seen' _ eq_refl) as [P1 [P2 [P3 P4]]].
-      split; [|split; [|split]].
-      * rewrite map_app. apply NoDup_app_intro; auto.
-        intros x X Y. apply P2 in Y. apply Y. apply A. apply B in X. tauto.
-      * intros x. rewrite map_app, in_app_iff. intros [X|X]; [apply B in X; tauto|].
-        apply P2 in X. intros Y. apply X. apply A. tauto.
-      * intros c t X. apply in_app_iff in X. destruct X as [X|X].
-        -- exists p, subs. pose proof (D _ X) as T. simpl in T. subst t.
-           assert (In c (map fst l1)) by (apply in_map_iff; exists (c, Some p); auto).
-           apply B in H. simpl. tauto.
-        -- destruct (P3 _ _ X) as [p' [s' Y]]. exists p', s'. simpl. tauto.
-      * intros p' s' c [X|X] Hm Hc Hs.
-        -- injection X as <- <-. rewrite map_app, in_app_iff. left. apply B. tauto.
-        -- rewrite map_app, in_app_iff.
-           destruct (in_dec Z.eq_dec c subs) as [I|I]; [left; apply B; tauto|].
-           right. apply (P4 p' s' c X Hm Hc). intros Y. apply A in Y. tauto.
-    + destruct (IH seen l H) as [P1 [P2 [P3 P4]]]. split; [|split; [|split]]; auto.
-      * intros c t X. destruct (P3 _ _ X) as [p' [s' Y]]. exists p', s'. simpl. tauto.
-      * intros p' s' c [X|X] Hm Hc Hs; [injection X as <- <-; congruence|]. eapply P4; eauto.
-Qed.
-
 Definition chan_subs (s : pubsub) (c : Z) : list bytes := si_ch (cinfo (ps_conns s) c).
 Definition pat_subs (s : pubsub) (c : Z) : list bytes := si_pat (cinfo (ps_conns s) c).
 
@@ -656,69 +602,64 @@ Proof.
   intros H. exists l. split; [apply alookup_some_In; exact E | exact H].
 Qed.
 
-Lemma publish_parts s ch :
-  exists seen l0, add_receivers (g_subs ch (ps_ch s)) None [] = (seen, l0) /\
-                  publish s ch = l0 ++ pat_receivers ch (ps_pat s) seen.
+Lemma In_pat_receivers ch pats c t :
+  In (c, t) (pat_receivers ch pats) <->
+  exists p subs, t = Some p /\ In (p, subs) pats /\ ps_match p ch = true /\ In c subs.
 Proof.
-  unfold publish. destruct (add_receivers (g_subs ch (ps_ch s)) None []) as [seen l0]. eauto.
+  unfold pat_receivers. rewrite in_flat_map. split.
+  - intros [[p subs] [H1 H2]]. simpl in H2. destruct (ps_match p ch) eqn:M; [|contradiction].
+    apply in_map_iff in H2. destruct H2 as [c0 [E H2]]. injection E as -> <-. exists p, subs. auto.
+  - intros [p [subs [-> [H1 [H2 H3]]]]]. exists (p, subs). split; [exact H1|]. simpl. rewrite H2.
+    apply in_map_iff. exists c. auto.
 Qed.
 
-Lemma publish_nodup s ch : NoDup (map fst (publish s ch)).
+Lemma pat_receivers_NoDup ch : forall pats,
+  NoDup (map fst pats) -> Forall (fun e => snd e <> [] /\ NoDup (snd e)) pats ->
+  NoDup (pat_receivers ch pats).
 Proof.
-  destruct (publish_parts s ch) as [seen [l0 [E ->]]].
-  destruct (add_receivers_spec _ _ _ _ _ E) as [A [B [C D]]].
-  destruct (pat_receivers_spec ch (ps_pat s) seen _ eq_refl) as [P1 [P2 _]].
-  rewrite map_app. apply NoDup_app_intro; auto.
-  intros x X Y. apply P2 in Y. apply Y. apply A. apply B in X. tauto.
+  induction pats as [|[p subs] r IH]; intros K F; [constructor|].
+  inversion K as [|? ? Kn Kd]; inversion F as [|? ? [_ Fd] Fr]; subst.
+  change (pat_receivers ch ((p, subs) :: r)) with
+    ((if ps_match p ch then map (fun c => (c, Some p)) subs else []) ++ pat_receivers ch r).
+  apply NoDup_app_intro; [| apply IH; assumption |].
+  - destruct (ps_match p ch); [|constructor].
+    simpl in Fd. clear -Fd. induction Fd as [|c l N D IH]; simpl; constructor; [|exact IH].
+    intros X. apply in_map_iff in X. destruct X as [c' [E X]]. injection E as ->. contradiction.
+  - intros [c t] X Y. destruct (ps_match p ch); [|contradiction].
+    apply in_map_iff in X. destruct X as [c' [E _]]. injection E as _ <-.
+    apply In_pat_receivers in Y. destruct Y as [p' [subs' [E [Y _]]]]. injection E as <-.
+    apply Kn. apply in_map_iff. exists (p, subs'). auto.
 Qed.
 
-Lemma publish_sound s ch c t : Inv s -> In (c, t) (publish s ch) -> is_matching s c ch t.
+(** delivery = the set of (connection, matching subscription) pairs, each exactly once *)
+Lemma In_publish s ch c t : Inv s -> (In (c, t) (publish s ch) <-> is_matching s c ch t).
 Proof.
-  intros HI H. destruct (publish_parts s ch) as [seen [l0 [E Hp]]]. rewrite Hp in H.
-  destruct (add_receivers_spec _ _ _ _ _ E) as [A [B [C D]]].
-  destruct (pat_receivers_spec ch (ps_pat s) seen _ eq_refl) as [_ [_ [P3 _]]].
-  apply in_app_iff in H. destruct H as [H|H].
-  - pose proof (D _ H) as T. simpl in T. subst t. simpl.
-    assert (X : In c (map fst l0)) by (apply in_map_iff; exists (c, None); auto).
-    apply B in X. apply (inv_ch s HI). tauto.
-  - destruct (P3 _ _ H) as [p [subs [-> [X1 [X2 X3]]]]]. simpl. split; [|exact X2].
-    apply (inv_pat s HI). rewrite (g_subs_entry _ _ _ (proj1 (inv_wf_pat s HI)) X1). exact X3.
+  intros HI. unfold publish. rewrite in_app_iff, in_map_iff, In_pat_receivers. split.
+  - intros [[c0 [E H]]|[p [subs [-> [H1 [H2 H3]]]]]].
+    + injection E as -> <-. simpl. apply (inv_ch s HI). exact H.
+    + simpl. split; [|exact H2]. apply (inv_pat s HI).
+      rewrite (g_subs_entry _ _ _ (proj1 (inv_wf_pat s HI)) H1). exact H3.
+  - destruct t as [p|]; simpl.
+    + intros [H1 H2]. right. apply (inv_pat s HI) in H1.
+      destruct (g_subs_in_entry _ _ _ H1) as [l [X1 X2]]. exists p, l. auto.
+    + intros H. left. exists c. split; [reflexivity|]. apply (inv_ch s HI). exact H.
 Qed.
 
-Lemma publish_complete s ch c : Inv s -> has_matching s c ch -> In c (map fst (publish s ch)).
+Lemma g_subs_NoDup (g : gmap) n : GWf g -> NoDup (g_subs n g).
 Proof.
-  intros HI H. destruct (publish_parts s ch) as [seen [l0 [E ->]]].
-  destruct (add_receivers_spec _ _ _ _ _ E) as [A [B [C D]]].
-  destruct (pat_receivers_spec ch (ps_pat s) seen _ eq_refl) as [_ [_ [_ P4]]].
-  rewrite map_app, in_app_iff. destruct H as [H|[p [H1 H2]]].
-  - left. apply B. apply (inv_ch s HI) in H. simpl. tauto.
-  - destruct (in_dec Z.eq_dec c seen) as [I|I].
-    + left. apply B. apply A in I. simpl in I. tauto.
-    + right. apply (inv_pat s HI) in H1. destruct (g_subs_in_entry _ _ _ H1) as [l [X1 X2]].
-      exact (P4 p l c X1 H2 X2 I).
+  intros W. unfold g_subs. destruct (alookup n g) as [l|] eqn:E; [|constructor].
+  exact (proj2 (gwf_lookup _ _ _ W E)).
 Qed.
 
-(** following the implementation's pattern pick *)
-Lemma follow_fst s ch choice r : fst (follow s ch choice r) = fst r.
+Lemma publish_NoDup s ch : Inv s -> NoDup (publish s ch).
 Proof.
-  destruct r as [c [p|]]; simpl; [|reflexivity].
-  destruct (choice c); [|reflexivity]. destruct (admissible s ch c b); reflexivity.
-Qed.
-Lemma publish_with_fst choice s ch : map fst (publish_with choice s ch) = map fst (publish s ch).
-Proof.
-  unfold publish_with. rewrite map_map. apply map_ext. intros r. apply follow_fst.
-Qed.
-Lemma publish_with_sound choice s ch c t :
-  Inv s -> In (c, t) (publish_with choice s ch) -> is_matching s c ch t.
-Proof.
-  intros HI H. unfold publish_with in H. apply in_map_iff in H. destruct H as [[c0 t0] [F H]].
-  pose proof (publish_sound s ch c0 t0 HI H) as S.
-  destruct t0 as [p|]; simpl in F.
-  - destruct (choice c0) as [p'|]; [|injection F as <- <-; exact S].
-    destruct (admissible s ch c0 p') eqn:Ad; [|injection F as <- <-; exact S].
-    injection F as <- <-. unfold admissible in Ad. apply andb_true_iff in Ad. destruct Ad as [M Z].
-    simpl. split; [|exact M]. apply (inv_pat s HI). apply zmem_In. exact Z.
-  - injection F as <- <-. exact S.
+  intros HI. unfold publish. apply NoDup_app_intro.
+  - pose proof (g_subs_NoDup (ps_ch s) ch (inv_wf_ch s HI)) as D.
+    induction D as [|c l N D IH]; simpl; constructor; [|exact IH].
+    intros X. apply in_map_iff in X. destruct X as [c' [E X]]. injection E as ->. contradiction.
+  - apply pat_receivers_NoDup; apply (inv_wf_pat s HI).
+  - intros [c t] X Y. apply in_map_iff in X. destruct X as [c' [E _]]. injection E as _ <-.
+    apply In_pat_receivers in Y. destruct Y as [p [subs [E _]]]. discriminate.
 Qed.
 
 (** ---- deliveries per connection ---- *)
@@ -742,47 +683,39 @@ Proof.
     + intros H. left. apply bmem_In in H. rewrite H. simpl. auto.
 Qed.
 
-Lemma filter_fst_none (c : Z) (l : list receiver) : ~ In c (map fst l) -> filter (fun r => fst r =? c) l = [].
+Lemma matching_subs_NoDup s c ch : Inv s -> NoDup (matching_subs s c ch).
 Proof.
-  induction l as [|r l IH]; simpl; intros H; [reflexivity|].
-  destruct (Z.eqb_spec (fst r) c) as [E|E]; [exfalso; apply H; auto|]. apply IH. tauto.
-Qed.
-Lemma filter_fst_le1 (c : Z) (l : list receiver) :
-  NoDup (map fst l) -> (length (filter (fun r => (fst r =? c)%Z) l) <= 1)%nat.
-Proof.
-  induction l as [|r l IH]; simpl; intros H; [lia|].
-  inversion H as [|? ? Hn Hd]; subst.
-  destruct (Z.eqb_spec (fst r) c) as [E|E]; [|apply IH; exact Hd].
-  rewrite filter_fst_none by (rewrite <- E; exact Hn). simpl. lia.
+  intros HI. unfold matching_subs. apply NoDup_app_intro.
+  - destruct (bmem ch (chan_subs s c)); constructor; [simpl; tauto | constructor].
+  - pose proof (NoDup_filter (fun p => ps_match p ch) (proj2 (inv_nodup s HI c))) as D.
+    fold (pat_subs s c) in D.
+    induction D as [|p l N D IH]; simpl; constructor; [|exact IH].
+    intros X. apply in_map_iff in X. destruct X as [p' [E X]]. injection E as ->. contradiction.
+  - intros t X Y. apply in_map_iff in Y. destruct Y as [p [<- _]].
+    destruct (bmem ch (chan_subs s c)); simpl in X; [destruct X; [discriminate | contradiction] | contradiction].
 Qed.
 
-Lemma delivery_partial choice s ch c :
-  Inv s -> (length (matching_subs s c ch) <= 1)%nat ->
-  deliveries_to c (publish_with choice s ch) = matching_subs s c ch.
+Lemma In_deliveries_to c l t : In t (deliveries_to c l) <-> In (c, t) l.
 Proof.
-  intros HI L. unfold deliveries_to.
-  assert (ND : NoDup (map fst (publish_with choice s ch))) by (rewrite publish_with_fst; apply publish_nodup).
-  pose proof (filter_fst_le1 c _ ND) as LD.
-  assert (Snd : forall r, In r (filter (fun r => fst r =? c) (publish_with choice s ch)) ->
-                          In (snd r) (matching_subs s c ch)).
-  { intros [c0 t0] H. apply filter_In in H. destruct H as [H E]. simpl in E. apply Z.eqb_eq in E. subst c0.
-    apply In_matching. eapply publish_with_sound; eassumption. }
-  assert (Cpl : matching_subs s c ch <> [] -> filter (fun r => fst r =? c) (publish_with choice s ch) <> []).
-  { intros NE. destruct (matching_subs s c ch) as [|x xs] eqn:M; [congruence|].
-    assert (HM : has_matching s c ch).
-    { assert (X : is_matching s c ch x) by (apply In_matching; rewrite M; simpl; auto).
-      destruct x as [p|]; [right; exists p; exact X | left; exact X]. }
-    pose proof (publish_complete s ch c HI HM) as X. rewrite <- publish_with_fst with (choice := choice) in X.
-    apply in_map_iff in X. destruct X as [r [E R]].
-    intros Z. assert (In r (filter (fun r => fst r =? c) (publish_with choice s ch))) by (apply filter_In; split; [exact R | apply Z.eqb_eq; exact E]).
-    rewrite Z in H. contradiction. }
-  destruct (filter (fun r => fst r =? c) (publish_with choice s ch)) as [|r [|r2 rs]] eqn:F; simpl in LD; try lia.
-  - destruct (matching_subs s c ch) as [|x xs]; [reflexivity|]. exfalso. assert (X : x :: xs <> []) by discriminate. exact (Cpl X eq_refl).
-  - specialize (Snd r (or_introl eq_refl)).
-    destruct (matching_subs s c ch) as [|x [|x2 xs]]; simpl in *.
-    + contradiction.
-    + destruct Snd as [->|[]]. reflexivity.
-    + lia.
+  unfold deliveries_to. rewrite in_map_iff. split.
+  - intros [[c0 t0] [E H]]. simpl in E. subst t0. apply filter_In in H. destruct H as [H Q].
+    simpl in Q. apply Z.eqb_eq in Q. subst c0. exact H.
+  - intros H. exists (c, t). split; [reflexivity|]. apply filter_In. split; [exact H | simpl; apply Z.eqb_refl].
+Qed.
+Lemma deliveries_to_NoDup c l : NoDup l -> NoDup (deliveries_to c l).
+Proof.
+  unfold deliveries_to. induction 1 as [|[c0 t0] l N D IH]; simpl; [constructor|].
+  destruct (Z.eqb_spec c0 c) as [->|Ne]; [|exact IH]. simpl. constructor; [|exact IH].
+  intros X. apply (In_deliveries_to c l t0) in X. contradiction.
+Qed.
+
+Lemma delivery_full s ch c :
+  Inv s -> Permutation.Permutation (deliveries_to c (publish s ch)) (matching_subs s c ch).
+Proof.
+  intros HI. apply Permutation.NoDup_Permutation.
+  - apply deliveries_to_NoDup, publish_NoDup. exact HI.
+  - apply matching_subs_NoDup. exact HI.
+  - intros t. rewrite In_deliveries_to, In_matching. apply In_publish. exact HI.
 Qed.
 
 (** ---- nothing after unsubscribing ---- *)
@@ -864,8 +797,8 @@ Proof.
   - rewrite cinfo_cremove_neq by exact N. auto.
 Qed.
 
-Lemma step_keeps_unsub_ch choice s o c ch :
-  no_resub_ch c ch o -> ~ In ch (chan_subs s c) -> ~ In ch (chan_subs (snd (ps_step choice s o)) c).
+Lemma step_keeps_unsub_ch s o c ch :
+  no_resub_ch c ch o -> ~ In ch (chan_subs s c) -> ~ In ch (chan_subs (snd (ps_step s o)) c).
 Proof.
   intros NR H. destruct o; simpl.
   - pose proof (proj1 (subscribe_subs s c0 names c) ch) as X. destruct (subscribe s c0 names). simpl in *.
@@ -876,8 +809,8 @@ Proof.
   - rewrite (proj1 (unsubscribe_all_subs s c0 c)). destruct (c =? c0); [simpl; tauto | exact H].
   - exact H.
 Qed.
-Lemma step_keeps_unsub_pat choice s o c p :
-  no_resub_pat c p o -> ~ In p (pat_subs s c) -> ~ In p (pat_subs (snd (ps_step choice s o)) c).
+Lemma step_keeps_unsub_pat s o c p :
+  no_resub_pat c p o -> ~ In p (pat_subs s c) -> ~ In p (pat_subs (snd (ps_step s o)) c).
 Proof.
   intros NR H. destruct o; simpl.
   - pose proof (proj2 (subscribe_subs s c0 names c)) as X. destruct (subscribe s c0 names). simpl in *. rewrite X. exact H.
@@ -901,23 +834,23 @@ Proof.
   inversion F; subst. apply IH; [assumption|]. apply step_keeps_unsub_pat; assumption.
 Qed.
 
-Lemma after_unsubscribe_nothing choice s c names ch ops :
+Lemma after_unsubscribe_nothing s c names ch ops :
   Inv s -> In ch names -> Forall (no_resub_ch c ch) ops ->
-  ~ In (c, None) (publish_with choice (ps_run (snd (unsubscribe s c (Some names))) ops) ch).
+  ~ In (c, None) (publish (ps_run (snd (unsubscribe s c (Some names))) ops) ch).
 Proof.
   intros HI Hn F H.
   assert (HI' : Inv (ps_run (snd (unsubscribe s c (Some names))) ops)) by (apply run_inv, unsubscribe_inv; exact HI).
-  apply (publish_with_sound _ _ _ _ _ HI') in H. simpl in H. revert H.
+  apply (In_publish _ _ _ _ HI') in H. simpl in H. revert H.
   apply run_keeps_unsub_ch; [exact F|].
   rewrite (proj1 (unsubscribe_subs s c (Some names) c) ch). tauto.
 Qed.
-Lemma after_punsubscribe_nothing choice s c names p ch ops :
+Lemma after_punsubscribe_nothing s c names p ch ops :
   Inv s -> In p names -> Forall (no_resub_pat c p) ops ->
-  ~ In (c, Some p) (publish_with choice (ps_run (snd (punsubscribe s c (Some names))) ops) ch).
+  ~ In (c, Some p) (publish (ps_run (snd (punsubscribe s c (Some names))) ops) ch).
 Proof.
   intros HI Hn F H.
   assert (HI' : Inv (ps_run (snd (punsubscribe s c (Some names))) ops)) by (apply run_inv, punsubscribe_inv; exact HI).
-  apply (publish_with_sound _ _ _ _ _ HI') in H. simpl in H. destruct H as [H _]. revert H.
+  apply (In_publish _ _ _ _ HI') in H. simpl in H. destruct H as [H _]. revert H.
   apply run_keeps_unsub_pat; [exact F|].
   rewrite (proj1 (punsubscribe_subs s c (Some names) c) p). tauto.
 Qed.
@@ -927,14 +860,14 @@ Proof. destruct o; simpl; intros H; split; intros; auto; try tauto; intros E; co
 
 (** after unsubscribe_all (disconnect cleanup) the connection receives nothing, on any channel,
     until it subscribes again *)
-Lemma after_unsubscribe_all_nothing choice s c ch ops :
+Lemma after_unsubscribe_all_nothing s c ch ops :
   Inv s -> Forall (not_sub_by c) ops ->
-  ~ In c (map fst (publish_with choice (ps_run (unsubscribe_all s c) ops) ch)).
+  ~ In c (map fst (publish (ps_run (unsubscribe_all s c) ops) ch)).
 Proof.
   intros HI F H.
   assert (HI' : Inv (ps_run (unsubscribe_all s c) ops)) by (apply run_inv, unsubscribe_all_inv; exact HI).
   apply in_map_iff in H. destruct H as [[c0 t] [E H]]. simpl in E. subst c0.
-  apply (publish_with_sound _ _ _ _ _ HI') in H.
+  apply (In_publish _ _ _ _ HI') in H.
   destruct t as [p|]; simpl in H.
   - destruct H as [H _]. revert H. apply run_keeps_unsub_pat.
     + eapply Forall_impl; [|exact F]. intros o X. apply not_sub_no_resub. exact X.
